@@ -82,6 +82,10 @@ type Entry struct {
 	ID   string // stable identifier: part/base[/crlf]/edits
 	Base string // name of the base configuration
 	Src  string
+	// Edits is the number of gap deviations applied to the base (or to its
+	// CRLF / BOM twin): 0 for the base text itself, 1 for a single-gap
+	// deviation, 2 for a pair deviation.
+	Edits int
 }
 
 type edit struct{ gap, alt int }
@@ -357,7 +361,7 @@ type cand struct {
 
 func enumBase(idPrefix, baseName, src string, d Depth, alpha []int, st *Stats, emit func(Entry) bool) bool {
 	seen := map[uint64]struct{}{}
-	out := func(id string, s []byte) bool {
+	out := func(id string, s []byte, edits int) bool {
 		h := fnv.New64a()
 		h.Write(s)
 		k := h.Sum64()
@@ -367,9 +371,9 @@ func enumBase(idPrefix, baseName, src string, d Depth, alpha []int, st *Stats, e
 		}
 		seen[k] = struct{}{}
 		st.Emitted++
-		return emit(Entry{ID: id, Base: baseName, Src: string(s)})
+		return emit(Entry{ID: id, Base: baseName, Src: string(s), Edits: edits})
 	}
-	if !out(idPrefix, []byte(src)) {
+	if !out(idPrefix, []byte(src), 0) {
 		return false
 	}
 	if d == BaseOnly {
@@ -386,7 +390,7 @@ func enumBase(idPrefix, baseName, src string, d Depth, alpha []int, st *Stats, e
 		if !admissible(s, want, len(want) != len(l.toks)) {
 			return true
 		}
-		return out(idPrefix+"/"+editID(es), s)
+		return out(idPrefix+"/"+editID(es), s, len(es))
 	}
 	// single-gap deviations
 	for g := 0; g < n; g++ {
